@@ -30,7 +30,7 @@ CONFIG = {
     'quick': {'shards': 16, 'cases': 5, 'timeout': 900, 'floor': 30, 'mp_every': 5},
     'thorough': {'shards': 32, 'cases': 210, 'timeout': 5400, 'floor': 2400, 'mp_every': 35},
 }
-REQUIRED = ['sampler_adsmc', 'cases_with_progress_bar', 'scheduled_runs', 'runs_with_cancellation', 'runs_with_out_of_order_exec', 'runs_with_not_ready',
+REQUIRED = ['cases_with_output_pool', 'sampler_adsmc', 'cases_with_progress_bar', 'scheduled_runs', 'runs_with_cancellation', 'runs_with_out_of_order_exec', 'runs_with_not_ready',
             'sampler_rej', 'sampler_smc', 'updates_checked', 'distinct_interleaving', 'mp_runs']
 
 
@@ -75,6 +75,10 @@ def gen_cases(ctx):
                 kw = {'quantiles': [float(rng.choice([0.5, 0.7]))] * rounds if rounds > 2 else [float(rng.choice([0.3, 0.5, 0.7]))] * rounds}
                 spec['disc']['flavour'] = 'cont'
         case = {'spec': spec, 'sampler': sampler, 'bs': bs, 'n': n, 'kw': kw, 'seed': seed, 'bar': bool(rng.random() < 0.4)}
+        if sampler in ('rej', 'smc') and rng.random() < 0.35:
+            # an output pool that stores the simulator and/or things computed from it (each run gets its own fresh pool)
+            cand = ['S'] + [s_['name'] for s_ in spec['summaries']] + ['d']
+            case['pool'] = [str(x) for x in rng.choice(cand, size=int(rng.integers(1, len(cand) + 1)), replace=False)]
         if sampler == 'smc' and rng.random() < 0.3:
             case['cont'] = {'thresholds': [q(0.1)]} if 'thresholds' in kw else {'quantiles': [0.5]}
         case['schedules'] = [{'seed': int(rng.integers(0, 2 ** 31 - 1)), 'cores': int(rng.integers(1, 9)),
@@ -92,13 +96,14 @@ def _run(client, case, mpb, delays=None):
     elfi.client.set_client(client)
     m = models.build(case['spec'], sim_meta=bool(delays), delays=delays)
     hist = []
+    pkw = {'pool': elfi.OutputPool(list(case['pool']))} if case.get('pool') else {}
     if case['sampler'] == 'rej':
-        smp = elfi.Rejection(m['d'], batch_size=case['bs'], seed=case['seed'], max_parallel_batches=mpb)
+        smp = elfi.Rejection(m['d'], batch_size=case['bs'], seed=case['seed'], max_parallel_batches=mpb, **pkw)
     elif case['sampler'] == 'adsmc':
         m['d'].become(elfi.AdaptiveDistance(*[m[s_['name']] for s_ in case['spec']['summaries']], model=m))
         smp = elfi.AdaptiveDistanceSMC(m['d'], batch_size=case['bs'], seed=case['seed'], max_parallel_batches=mpb)
     else:
-        smp = elfi.SMC(m['d'], batch_size=case['bs'], seed=case['seed'], max_parallel_batches=mpb)
+        smp = elfi.SMC(m['d'], batch_size=case['bs'], seed=case['seed'], max_parallel_batches=mpb, **pkw)
     upd = smp.update
 
     def recording_update(batch, batch_index):
@@ -158,6 +163,7 @@ def run_case(ctx, case):
     import elfi.clients.native as nat
     ctx.event('sampler_' + case['sampler'])
     ctx.event('cases_with_progress_bar', bool(case.get('bar')))
+    ctx.event('cases_with_output_pool', bool(case.get('pool')))
     try:
         ref, hist = _run(nat.Client(), case, 1)
         _check_hist(hist, 'sequential')
